@@ -3,7 +3,7 @@
    recorded call shapes 1, 2, 3. *)
 From Coq Require Import List Arith Bool Lia.
 From TT Require Import Base.HeapTypes Model.Heap Model.HeapTriggers Spec.ModelWF
-  Proofs.C15.HeapLemmas Proofs.C15.Links Proofs.C15.Tree Proofs.C15.Frames Proofs.C15.LinkOps Proofs.C15.Values.
+  Proofs.C15.HeapLemmas Proofs.C15.Links Proofs.C15.Tree Proofs.C15.Frames Proofs.C15.LinkOps Proofs.C15.Values Proofs.C15.Dfs.
 Import ListNotations.
 
 (* ---- an operation that leaves links and kinds alone: only four clauses remain to be shown ---- *)
@@ -315,18 +315,18 @@ Proof.
     split; [apply C2; exact Hd'|]. destruct (Nat.eq_dec d d') as [<-|N]; [|apply C2; exact Hd'].
     intros id x Hin. destruct (In_dict_set _ _ _ _ Hin) as [H|[= _ ->]]; [eapply C2; eauto|exact Hr].
   - split; [|split].
-    + intros i ri Hi E. destruct (W1 i ri Hi E) as [Cp (di & idi & E1 & E2 & E3)].
+    + intros i ri Hi E. change (i < nnodes h) in Hi. destruct (W1 i ri Hi E) as [Cp (di & idi & E1 & E2 & E3)].
       split; [exact Cp|]. exists di, idi. repeat split; auto. rewrite REGS.
       destruct (Nat.eq_dec d di) as [<-|N]; [|exact E3]. rewrite lookup_set.
       destruct (Nat.eqb_spec idi k) as [->|N]; [|exact E3]. f_equal.
       destruct (Nat.eq_dec ri r) as [|NE]; [auto|]. exfalso.
-      unfold t_put_region_replace in T. unfold kind_of in T. rewrite K, Dd, Ek in T.
+      unfold t_put_region_replace in T. rewrite K, Dd, Ek in T.
       rewrite kind_eqb_refl in T. rewrite (proj2 (onat_eqb_true _ _) eq_refl) in T. simpl in T.
       rewrite dict_get_lookup, E3 in T. apply andb_false_iff in T. destruct T as [T|T].
       * apply negb_false_iff in T. apply Nat.eqb_eq in T. congruence.
       * assert (X : existsb (fun i0 => onat_eqb (n_region (nd h i0)) (Some ri) && onat_eqb (n_doc (nd h i0)) (Some d)) (nodes h) = true).
         { apply existsb_exists. exists i. split; [apply in_seq; lia|].
-          rewrite (proj2 (onat_eqb_true _ _) E), (proj2 (onat_eqb_true _ _) E1). reflexivity. }
+          apply andb_true_iff; split; apply onat_eqb_true; [exact E|exact E1]. }
         congruence.
     + intros d' id x Hd'. rewrite ndocs_updd in Hd'. rewrite REGS.
       destruct (Nat.eq_dec d d') as [<-|N]; [|apply W2; exact Hd'].
@@ -335,4 +335,208 @@ Proof.
     + intros d' Hd'. rewrite ndocs_updd in Hd'. rewrite REGS.
       destruct (Nat.eq_dec d d') as [<-|N]; [|apply W3; exact Hd']. apply keys_set. apply W3. exact Hd.
   - apply (values_frame h); auto; try reflexivity; try apply same_updd; try apply ndocs_updd. apply dsame_updd. reflexivity.
+Qed.
+
+(* ---- sizes ---- *)
+Definition same_size (h h' : heap) : Prop := nnodes h' = nnodes h /\ ndocs h' = ndocs h.
+Lemma same_size_refl h : same_size h h. Proof. split; reflexivity. Qed.
+Lemma same_size_trans a b c : same_size a b -> same_size b c -> same_size a c.
+Proof. intros [A1 A2] [B1 B2]. split; congruence. Qed.
+Lemma size_updn h i f : same_size h (updn h i f). Proof. split; [apply nnodes_updn|reflexivity]. Qed.
+Lemma size_updd h i f : same_size h (updd h i f). Proof. split; [reflexivity|apply ndocs_updd]. Qed.
+
+Ltac size_tac := repeat first [apply same_size_refl | apply size_updn | apply size_updd
+                              | match goal with |- context [match ?x with _ => _ end] => destruct x end].
+Lemma set_begin_size h s v : same_size h (heap_of (set_begin_m h s v)). Proof. unfold set_begin_m. size_tac. Qed.
+Lemma set_end_size h s v : same_size h (heap_of (set_end_m h s v)). Proof. unfold set_end_m. size_tac. Qed.
+Lemma set_lang_size h s v : same_size h (heap_of (set_lang_m h s v)). Proof. unfold set_lang_m. size_tac. Qed.
+Lemma set_space_size h s v : same_size h (heap_of (set_space_m h s v)). Proof. unfold set_space_m. size_tac. Qed.
+Lemma set_id_size h s v : same_size h (heap_of (set_id_m h s v)). Proof. unfold set_id_m. size_tac. Qed.
+Lemma set_style_size h s p v : same_size h (heap_of (set_style_m h s p v)). Proof. unfold set_style_m. size_tac. Qed.
+Lemma set_region_size h s r : same_size h (heap_of (set_region_m h s r)). Proof. unfold set_region_m. size_tac. Qed.
+
+(* ---- copy_to ---- *)
+Definition WFn (n : nat) (h : heap) : Prop := WF h /\ nnodes h = n.
+Lemma copy_styles_WFn n s dst h : dst < n -> WFn n h -> WFn n (heap_of (copy_styles s dst h)).
+Proof.
+  intros Hd. unfold copy_styles. generalize (n_styles (nd h s)) as l. intro l. revert h.
+  induction l as [|[p v] t IH]; intros h P; [exact P|].
+  apply heap_of_bind_inv.
+  - destruct P as [W N]. split; [apply set_style_WF; [exact W|rewrite N; exact Hd]|].
+    destruct (set_style_size h dst (PValid p) (Some v)) as [E _]. congruence.
+  - intros h1 _ P1. apply IH. exact P1.
+Qed.
+Lemma copy_anims_WFn n s dst h : dst < n -> s < n -> WFn n h -> WFn n (heap_of (copy_anims s dst h)).
+Proof.
+  intros Hd Hs [W N]. unfold copy_anims. destruct (_ && _); [split; assumption|]. simpl.
+  split; [|rewrite nnodes_updn; exact N].
+  apply attr_update_WF; [exact W|reflexivity|reflexivity|reflexivity|reflexivity|apply attr_regions_frame; reflexivity|].
+  intros (V1 & V2). split; [|exact V2]. intros i Hi. rewrite nnodes_updn in Hi.
+  rewrite (proj_updn n_styles) by reflexivity. split; [apply V1; exact Hi|].
+  destruct (Nat.eq_dec i dst) as [->|NE]; [|rewrite nd_updn_other by auto; apply V1; exact Hi].
+  rewrite nd_updn_same by (rewrite N; exact Hd). simpl. intros q w H. apply in_app_iff in H. destruct H as [H|H].
+  - apply (proj2 (V1 dst Hi)). exact H.
+  - apply (proj2 (V1 s ltac:(rewrite N; exact Hs))). exact H.
+Qed.
+
+Theorem copy_to_WF h s dst : WF h -> s < nnodes h -> dst < nnodes h -> WF (heap_of (copy_to h s dst)).
+Proof.
+  intros HW Hs Hd.
+  assert (B : forall n r (f : heap -> res), WFn n (heap_of r) -> (forall h1, WFn n h1 -> WFn n (heap_of (f h1))) -> WFn n (heap_of (r >>= f))).
+  { intros n r f H1 H2. apply heap_of_bind_inv; [exact H1|]. intros h1 _ P. apply H2. exact P. }
+  assert (Sb : forall n h v, dst < n -> WFn n h -> WFn n (heap_of (set_begin_m h dst v))).
+  { intros n h0 v D [W N]. split; [apply set_begin_WF; exact W|]. destruct (set_begin_size h0 dst v). congruence. }
+  assert (Se : forall n h v, dst < n -> WFn n h -> WFn n (heap_of (set_end_m h dst v))).
+  { intros n h0 v D [W N]. split; [apply set_end_WF; exact W|]. destruct (set_end_size h0 dst v). congruence. }
+  assert (Sl : forall n h v, dst < n -> WFn n h -> WFn n (heap_of (set_lang_m h dst v))).
+  { intros n h0 v D [W N]. split; [apply set_lang_WF; exact W|]. destruct (set_lang_size h0 dst v). congruence. }
+  assert (Ss : forall n h v, dst < n -> WFn n h -> WFn n (heap_of (set_space_m h dst v))).
+  { intros n h0 v D [W N]. split; [apply set_space_WF; exact W|]. destruct (set_space_size h0 dst v). congruence. }
+  assert (Si : forall n h v, dst < n -> WFn n h -> WFn n (heap_of (set_id_m h dst v))).
+  { intros n h0 v D [W N]. split; [apply set_id_WF; [exact W|rewrite N; exact D]|]. destruct (set_id_size h0 dst v). congruence. }
+  assert (P0 : WFn (nnodes h) h) by (split; [exact HW|reflexivity]).
+  unfold copy_to. destruct (kind_of h s).
+  all: try (destruct (Nat.eqb s dst); [exact HW|]).
+  all: try (destruct (kind_eqb _ _); exact HW).
+  all: refine (proj1 (_ : WFn (nnodes h) _)).
+  all: repeat (apply B; [|intros]); try (apply copy_anims_WFn; assumption); try (apply copy_styles_WFn; assumption);
+       first [apply Sb | apply Se | apply Sl | apply Ss | apply Si]; assumption.
+Qed.
+
+(* ---- remove_region ---- *)
+Definition clear_if (id : nat) (h' : heap) (e : nat) : res :=
+  match n_region (nd h' e) with
+  | None => ROk h'
+  | Some r => if onat_eqb (n_id (nd h' r)) (Some id) then set_region_m h' e None else ROk h'
+  end.
+
+(* what one clearing step keeps *)
+Definition keeps (h h' : heap) : Prop :=
+  same_size h h' /\ same n_id h h' /\ same n_doc h h' /\ same n_kind h h' /\ h_docs h' = h_docs h /\
+  (forall j, n_region (nd h' j) = n_region (nd h j) \/ n_region (nd h' j) = None).
+Lemma keeps_refl h : keeps h h.
+Proof. repeat split; auto; intro; auto. Qed.
+Lemma keeps_trans a b c : keeps a b -> keeps b c -> keeps a c.
+Proof.
+  intros (A1 & A2 & A3 & A4 & A5 & A6) (B1 & B2 & B3 & B4 & B5 & B6).
+  refine (conj (same_size_trans _ _ _ A1 B1) (conj (same_trans _ _ _ _ A2 B2) (conj (same_trans _ _ _ _ A3 B3)
+         (conj (same_trans _ _ _ _ A4 B4) (conj _ _))))); [congruence|].
+  intro j. destruct (B6 j) as [E|E]; [rewrite E; apply A6|right; exact E].
+Qed.
+Lemma set_region_none_keeps h e : keeps h (heap_of (set_region_m h e None)).
+Proof.
+  unfold set_region_m.
+  assert (G : keeps h (updn h e (set_region None))).
+  { refine (conj (size_updn _ _ _) (conj _ (conj _ (conj _ (conj eq_refl _))))); try (apply same_updn; reflexivity).
+    intro j. destruct (Nat.eq_dec e j) as [<-|N]; [|left; rewrite nd_updn_other by assumption; reflexivity].
+    destruct (lt_dec e (nnodes h)); [right; rewrite nd_updn_same by assumption; reflexivity|left; rewrite updn_out by lia; reflexivity]. }
+  destruct (kind_of h e); simpl; try exact G; apply keeps_refl.
+Qed.
+Lemma clear_if_keeps id h e : keeps h (heap_of (clear_if id h e)).
+Proof.
+  unfold clear_if. destruct (n_region (nd h e)); [|apply keeps_refl].
+  destruct (onat_eqb _ _); [apply set_region_none_keeps|apply keeps_refl].
+Qed.
+Lemma clear_if_WF id h e : WF h -> e < nnodes h -> WF (heap_of (clear_if id h e)).
+Proof.
+  intros HW He. unfold clear_if. destruct (n_region (nd h e)); [|exact HW].
+  destruct (onat_eqb _ _); [|exact HW]. apply set_region_WF; auto. intros rr [=].
+Qed.
+(* after an accepted clearing step the element no longer references a region with that id *)
+Lemma clear_if_cleared id h e h' : WF h -> e < nnodes h -> clear_if id h e = ROk h' ->
+  forall r, n_region (nd h' e) = Some r -> n_id (nd h r) <> Some id.
+Proof.
+  intros HW He. unfold clear_if. destruct (n_region (nd h e)) as [r0|] eqn:E.
+  - destruct (onat_eqb (n_id (nd h r0)) (Some id)) eqn:I.
+    + pose proof HW as (_ & _ & _ & _ & (W1 & _) & _). destruct (W1 e r0 He E) as [Cp _].
+      unfold set_region_m, kind_of. destruct (n_kind (nd h e)); try discriminate Cp; simpl; intros [= <-] r;
+        rewrite nd_updn_same by assumption; simpl; discriminate.
+    + intros [= <-] r. rewrite E. intros [= <-]. apply onat_eqb_false in I. exact I.
+  - intros [= <-] r. rewrite E. discriminate.
+Qed.
+
+Lemma clear_loop id : forall l h h1, WF h -> (forall e, In e l -> e < nnodes h) ->
+  each (clear_if id) l h = ROk h1 ->
+  WF h1 /\ keeps h h1 /\ forall e, In e l -> forall r, n_region (nd h1 e) = Some r -> n_id (nd h r) <> Some id.
+Proof.
+  induction l as [|x t IH]; intros h h1 HW Hl E; simpl in E.
+  - injection E as <-. split; [exact HW|split; [apply keeps_refl|intros e []]].
+  - apply bind_ok in E. destruct E as (hx & Ex & E).
+    assert (Hx : x < nnodes h) by (apply Hl; left; reflexivity).
+    pose proof (clear_if_WF id h x HW Hx) as Wx. pose proof (clear_if_keeps id h x) as Kx. rewrite Ex in Wx, Kx. simpl in Wx, Kx.
+    assert (Hl' : forall e, In e t -> e < nnodes hx).
+    { intros e He. destruct Kx as ((N & _) & _). rewrite N. apply Hl. right; exact He. }
+    destruct (IH hx h1 Wx Hl' E) as (W1 & K1 & C1).
+    split; [exact W1|split; [eapply keeps_trans; eauto|]].
+    intros e [<-|He] r Er.
+    + destruct K1 as (_ & _ & _ & _ & _ & R1). destruct (R1 x) as [R|R]; [|congruence].
+      rewrite Er in R. symmetry in R. apply (clear_if_cleared id h x hx HW Hx Ex r R).
+    + destruct Kx as (_ & I & _). rewrite <- I. apply (C1 e He r Er).
+Qed.
+
+Theorem remove_region_WF h d id : WF h -> d < ndocs h -> t_remove_region_outside_body h d id = false ->
+  WF (heap_of (remove_region h d id)).
+Proof.
+  intros HW Hd T. unfold remove_region.
+  destruct (dict_get Nat.eqb (d_regions (dc h d)) id) as [r0|] eqn:G; [|exact HW].
+  rewrite dict_get_lookup in G.
+  set (l := match d_body (dc h d) with None => [] | Some b => match dfs (S (nnodes h)) h b with Some l => l | None => [] end end).
+  (* the loop, as `each clear_if` over the elements under the body *)
+  assert (LOOP : forall l0, (forall e, In e l0 -> e < nnodes h) -> l0 = l ->
+     WF (heap_of (each (clear_if id) l0 h >>= fun h1 => ROk (updd h1 d (fun x => set_regions (dict_del Nat.eqb (d_regions x) id) x))))).
+  { intros l0 Hl0 El. destruct (each (clear_if id) l0 h) as [h1|h1 e] eqn:E.
+    - simpl. destruct (clear_loop id l0 h h1 HW Hl0 E) as (W1 & (SZ & KI & KD & KK & KDocs & KR) & CL).
+      destruct SZ as [N1 D1].
+      assert (Hd1 : d < ndocs h1) by (rewrite D1; exact Hd).
+      pose proof W1 as ((C & _) & _ & _ & _ & (R1 & R2 & R3) & V).
+      set (f := fun x => set_regions (dict_del Nat.eqb (d_regions x) id) x).
+      assert (REGS : forall d', d_regions (dc (updd h1 d f) d') = if Nat.eq_dec d d' then dict_del Nat.eqb (d_regions (dc h1 d)) id else d_regions (dc h1 d')).
+      { intro d'. destruct (Nat.eq_dec d d') as [<-|N]; [rewrite dc_updd_same by assumption; reflexivity|rewrite dc_updd_other by assumption; reflexivity]. }
+      assert (DC : forall d', dc h1 d' = dc h d') by (intro; unfold dc; rewrite KDocs; reflexivity).
+      apply doc_update_WF; auto.
+      + destruct C as [C1 C2]. split; [intros i Hi; unfold dref_ok; rewrite ndocs_updd; apply (C1 i Hi)|].
+        intros d' Hd'. rewrite ndocs_updd in Hd'. rewrite REGS. rewrite (proj_updd d_body) by reflexivity.
+        split; [apply C2; exact Hd'|]. destruct (Nat.eq_dec d d') as [<-|N]; [|apply C2; exact Hd'].
+        intros k x Hin. apply (proj2 (C2 d Hd1) k x). clear - Hin.
+        induction (d_regions (dc h1 d)) as [|[a b] t IH]; simpl in *; [exact Hin|].
+        destruct (Nat.eqb id a); simpl in *; [right; exact Hin|]. destruct Hin as [H|H]; [left; exact H|right; auto].
+      + split; [|split].
+        * intros i ri Hi E1. change (i < nnodes h1) in Hi. change (n_region (nd h1 i) = Some ri) in E1.
+          destruct (R1 i ri Hi E1) as [Cp (di & idi & E2 & E3 & E4)].
+          split; [exact Cp|]. exists di, idi. repeat split; auto. rewrite REGS.
+          destruct (Nat.eq_dec d di) as [<-|N]; [|exact E4]. rewrite lookup_del by (apply R3; exact Hd1).
+          destruct (Nat.eqb_spec idi id) as [->|N]; [|exact E4]. exfalso.
+          (* i references the removed region: it was under the body, hence cleared *)
+          rewrite DC in E4. assert (ri = r0) by congruence. subst ri.
+          assert (Rh : n_region (nd h i) = Some r0) by (destruct (KR i) as [R|R]; congruence).
+          assert (Dh : n_doc (nd h i) = Some d) by (rewrite <- KD; exact E2).
+          assert (Il : In i l0).
+          { rewrite El. unfold t_remove_region_outside_body in T. rewrite dict_get_lookup, G in T. fold l in T.
+            destruct (in_dec Nat.eq_dec i l) as [|NI]; [assumption|]. exfalso.
+            assert (X : existsb (fun i0 => onat_eqb (n_region (nd h i0)) (Some r0) && onat_eqb (n_doc (nd h i0)) (Some d) && negb (memb i0 l)) (nodes h) = true).
+            { apply existsb_exists. exists i. split; [apply in_seq; lia|].
+              rewrite (proj2 (onat_eqb_true _ _) Rh), (proj2 (onat_eqb_true _ _) Dh). simpl.
+              apply negb_true_iff. destruct (memb i l) eqn:M; [|reflexivity]. apply existsb_eqb_In in M. contradiction. }
+            congruence. }
+          apply (CL i Il r0 E1). rewrite <- KI. exact E3.
+        * intros d' k x Hd'. rewrite ndocs_updd in Hd'. rewrite REGS.
+          destruct (Nat.eq_dec d d') as [<-|N]; [|apply R2; exact Hd'].
+          rewrite lookup_del by (apply R3; exact Hd1). destruct (Nat.eqb k id); [discriminate|]. apply R2. exact Hd1.
+        * intros d' Hd'. rewrite ndocs_updd in Hd'. rewrite REGS.
+          destruct (Nat.eq_dec d d') as [<-|N]; [|apply R3; exact Hd']. apply keys_del. apply R3. exact Hd1.
+      + apply (values_frame h1); auto; try reflexivity; try apply same_updd; try apply ndocs_updd. apply dsame_updd. reflexivity.
+    - simpl.
+      assert (ST : forall h0 x, In x l0 -> WF h0 /\ nnodes h0 = nnodes h -> WF (heap_of (clear_if id h0 x)) /\ nnodes (heap_of (clear_if id h0 x)) = nnodes h).
+      { intros h0 x Hx (W0 & N0). split; [apply clear_if_WF; [exact W0|rewrite N0; apply Hl0; exact Hx]|].
+        destruct (clear_if_keeps id h0 x) as ((N & _) & _). congruence. }
+      pose proof (each_inv (fun h0 => WF h0 /\ nnodes h0 = nnodes h) (clear_if id) l0 ST h (conj HW eq_refl)) as P.
+      rewrite E in P. exact (proj1 P). }
+  destruct (d_body (dc h d)) as [b|] eqn:B.
+  - destruct (dfs (S (nnodes h)) h b) as [l'|] eqn:D; [|exact HW].
+    change (WF (heap_of (each (clear_if id) l' h >>= fun h1 => ROk (updd h1 d (fun x => set_regions (dict_del Nat.eqb (d_regions x) id) x))))).
+    apply LOOP; [|unfold l; reflexivity].
+    pose proof HW as ((C & K & _) & _). destruct C as [_ C2]. destruct (C2 d Hd) as [Rb _]. rewrite B in Rb.
+    intros e He. eapply (dfs_range h K); [exact Rb|exact D|exact He].
+  - change (WF (heap_of (each (clear_if id) [] h >>= fun h1 => ROk (updd h1 d (fun x => set_regions (dict_del Nat.eqb (d_regions x) id) x))))).
+    apply LOOP; [intros e []|reflexivity].
 Qed.
